@@ -1,19 +1,44 @@
 #!/bin/sh
 # MANIFEST.setup_cmd: build the framework from files on disk only (offline).
+# Regenerates coq/gen/*.v from /repo, compiles the whole Coq development (full .vo build), runs the grep gate over every
+# .v file, checks that the theorem files of every claimed property compiled, and pre-builds the /repo library flavours.
 set -e
 cd "$(dirname "$0")/.."
 python3 tools/extract_src.py
-cd coq
-coq_makefile -f _CoqProject -o Makefile >/dev/null
-timeout 3000 make -j16 2>&1 | tail -5
-cd ..
+mkdir -p build
 python3 - <<'PY'
 import sys
+sys.path.insert(0, 'tools')
+import vlib
+ok, out = vlib.coq_make([])          # make -k -j<ncpu> of every .v (under the build lock)
+open('build/setup_make.log', 'w').write(out)
+print("coq make:", "ok" if ok else "some files failed (see below if a claimed property is affected)")
+PY
+python3 - <<'PY'
+import sys, os, json
 sys.path.insert(0, 'tools')
 import vlib
 bad = vlib.grep_gate()
 if bad:
     print("grep gate:", bad); sys.exit(1)
-for fl in ("asan", "plain"):
+man = json.load(open('MANIFEST.json'))
+missing = []
+flavours = set(["asan"])
+sys.path.insert(0, 'checks')
+for c in man["checks"]:
+    p = c["property_id"]
+    for f in ("Properties_%s.vo" % p, "Extract_%s.vo" % p):
+        if not os.path.exists(os.path.join("coq", f)):
+            missing.append(f)
+    try:
+        flavours.update(__import__(p).FLAVOURS)
+    except Exception as e:
+        print("cannot import checks/%s.py: %s" % (p, e)); sys.exit(1)
+if missing:
+    print("Coq build incomplete, missing:", missing)
+    print(open('build/setup_make.log').read()[-3000:])
+    sys.exit(1)
+for fl in sorted(flavours):
     vlib.build_lib(fl)
+print("setup ok: %d claimed properties, flavours %s" % (len(man["checks"]), sorted(flavours)))
 PY
